@@ -188,11 +188,13 @@ Qed.
 
 (** * gnmiUpdate, one unit *)
 
-Definition meta_val_ok (k : string) (v : option tv) : bool :=
+Definition meta_val_ok (k : string) (two : bool) (v : option tv) : bool :=
   if String.eqb k md_sync || String.eqb k md_connected
   then match v with Some (TBool _) => true | _ => false end
   else if String.eqb k md_connected_addr || String.eqb k md_connect_error
   then match v with Some (TStr _) => true | _ => false end
+  else if two && name_in k md_int_names
+  then match v with Some (TInt _) => true | _ => false end
   else true.
 
 (** the index path of a unit that reaches the leaf switch: the path is
@@ -207,18 +209,21 @@ Definition unit_ok (m : notif) : option path :=
           if negb (String.eqb p0 md_root) then Some (p0 :: prest)
           else match prest with
                | [] => None
-               | k :: _ => if meta_val_ok k (u_val u) then Some (p0 :: prest) else None
+               | k :: rest =>
+                   if meta_val_ok k (match rest with [] => true | _ :: _ => false end) (u_val u)
+                   then Some (p0 :: prest) else None
                end
       | _ => None
       end
   end.
 
-Lemma meta_side_effect_frame t k u t1 r :
-  meta_side_effect t k u = (t1, r) -> t_tree t1 = t_tree t /\ frame t t1.
+Lemma meta_side_effect_frame t k two u t1 r :
+  meta_side_effect t k two u = (t1, r) -> t_tree t1 = t_tree t /\ frame t t1.
 Proof.
   unfold meta_side_effect.
   destruct (String.eqb k md_sync); [|destruct (String.eqb k md_connected);
-    [|destruct (String.eqb k md_connected_addr || String.eqb k md_connect_error)]];
+    [|destruct (String.eqb k md_connected_addr || String.eqb k md_connect_error);
+      [|destruct (two && name_in k md_int_names)]]];
   destruct (u_val u) as [[]|]; intros E; inversion E; subst; (split; [reflexivity|repeat split]).
 Qed.
 
@@ -234,8 +239,8 @@ Proof.
       * apply meta_side_effect_frame.
 Qed.
 
-Lemma meta_side_effect_ok t k u :
-  meta_val_ok k (u_val u) = true -> exists t1, meta_side_effect t k u = (t1, Ok tt).
+Lemma meta_side_effect_ok t k two u :
+  meta_val_ok k two (u_val u) = true -> exists t1, meta_side_effect t k two u = (t1, Ok tt).
 Proof.
   unfold meta_val_ok, meta_side_effect.
   destruct (String.eqb k md_sync); cbn [orb].
@@ -244,20 +249,23 @@ Proof.
     + destruct (u_val u) as [[]|]; try discriminate. eauto.
     + destruct (String.eqb k md_connected_addr || String.eqb k md_connect_error).
       * destruct (u_val u) as [[]|]; try discriminate. eauto.
-      * eauto.
+      * destruct (two && name_in k md_int_names); [|eauto].
+        destruct (u_val u) as [[]|]; try discriminate. eauto.
 Qed.
 
-Lemma meta_side_effect_bad t k u t1 r :
-  meta_val_ok k (u_val u) = false -> meta_side_effect t k u = (t1, r) -> r <> Ok tt.
+Lemma meta_side_effect_bad t k two u t1 r :
+  meta_val_ok k two (u_val u) = false -> meta_side_effect t k two u = (t1, r) ->
+  t1 = t /\ r = Err err_meta_type.
 Proof.
   unfold meta_val_ok, meta_side_effect.
   destruct (String.eqb k md_sync); cbn [orb].
-  - destruct (u_val u) as [[]|]; try discriminate; intros _ E; inversion E; discriminate.
+  - destruct (u_val u) as [[]|]; try discriminate; intros _ E; inversion E; auto.
   - destruct (String.eqb k md_connected).
-    + destruct (u_val u) as [[]|]; try discriminate; intros _ E; inversion E; discriminate.
+    + destruct (u_val u) as [[]|]; try discriminate; intros _ E; inversion E; auto.
     + destruct (String.eqb k md_connected_addr || String.eqb k md_connect_error).
-      * destruct (u_val u) as [[]|]; try discriminate; intros _ E; inversion E; discriminate.
-      * discriminate.
+      * destruct (u_val u) as [[]|]; try discriminate; intros _ E; inversion E; auto.
+      * destruct (two && name_in k md_int_names); [|discriminate].
+        destruct (u_val u) as [[]|]; try discriminate; intros _ E; inversion E; auto.
 Qed.
 
 (** what a unit does to the leaf it addresses *)
@@ -373,33 +381,21 @@ Proof.
             wf_tree (t_tree t') /\ frame t t' /\ t_tree t' = t_tree t /\ tree_rejected r).
   { intros w' H1 H2 H3 E; inversion E; subst. rewrite Htr. repeat split; auto; apply Hf. }
   unfold update_pre in Hp. destruct p as [|p0 prest].
-  { inversion Hp; subst. intros E. destruct (Hbad (Panic panic_path0)) as (A & B & C & D); auto; try discriminate. }
+  { inversion Hp; subst. intros E. destruct (Hbad (Err err_invalid_path)) as (A & B & C & D); auto; try discriminate. }
   destruct (negb (String.eqb p0 md_root)) eqn:Hreal.
   - inversion Hp; subst. intros E.
     destruct (update_leaf_spec _ _ _ _ _ _ _ Hwf E) as (A & B & C). split; [exact A|]. split; [exact B|exact C].
   - destruct prest as [|k prest'].
-    { inversion Hp; subst. intros E. destruct (Hbad (Panic panic_path1)) as (A & B & C & D); auto; discriminate. }
-    destruct (meta_val_ok k (u_val u)) eqn:Hok.
-    + destruct (meta_side_effect_ok t k u Hok) as (t1' & Hm). rewrite Hm in Hp. inversion Hp; subst.
+    { inversion Hp; subst. intros E. destruct (Hbad (Err err_invalid_path)) as (A & B & C & D); auto; discriminate. }
+    destruct (meta_val_ok k (match prest' with [] => true | _ :: _ => false end) (u_val u)) eqn:Hok.
+    + destruct (meta_side_effect_ok t k _ u Hok) as (t1' & Hm). rewrite Hm in Hp. inversion Hp; subst.
       intros E. assert (Hwf1 : wf_tree (t_tree t1)) by (rewrite Htr; exact Hwf).
       destruct (update_leaf_spec _ _ _ _ _ _ _ Hwf1 E) as (A & B & C).
       split; [exact A|]. split; [eapply frame_trans; eauto|].
       rewrite Htr in C. destruct C as [C|[C1 C2]]; [left; exact C|right]. split; [exact C1|].
       intros q. rewrite C2. now rewrite (leaf_rule_frame t t1).
-    + pose proof (meta_side_effect_bad t k u t1 r1 Hok Hp) as Hne.
-      destruct r1 as [[]|e|w]; [congruence| |]; intros E.
-      * destruct (Hbad (Err e)) as (A & B & C & D); auto; try discriminate.
-        -- unfold meta_side_effect in Hp.
-           repeat match type of Hp with
-                  | (if ?b then _ else _) = _ => destruct b
-                  | match ?x with _ => _ end = _ => destruct x
-                  end; inversion Hp; discriminate.
-        -- unfold meta_side_effect in Hp.
-           repeat match type of Hp with
-                  | (if ?b then _ else _) = _ => destruct b
-                  | match ?x with _ => _ end = _ => destruct x
-                  end; inversion Hp; discriminate.
-      * destruct (Hbad (Panic w)) as (A & B & C & D); auto; discriminate.
+    + destruct (meta_side_effect_bad t k _ u t1 r1 Hok Hp) as [-> ->]. intros E.
+      destruct (Hbad (Err err_meta_type)) as (A & B & C & D); auto; discriminate.
 Qed.
 
 (** * gnmiRemove, one unit *)
@@ -407,14 +403,7 @@ Qed.
 Definition del_ok (m : notif) : option path :=
   match n_del m with
   | [] => None
-  | d :: _ =>
-      match join_path (n_prefix m) (Some d) with
-      | Ok (p0 :: prest) =>
-          if String.eqb p0 md_root
-          then match prest with [] => None | _ :: _ => Some (p0 :: prest) end
-          else Some (p0 :: prest)
-      | _ => None
-      end
+  | d :: _ => match join_path (n_prefix m) (Some d) with Ok p => Some p | _ => None end
   end.
 
 Definition older_than (ts : Z) (v : notif) : bool := Z.ltb (n_ts v) ts.
@@ -438,41 +427,28 @@ Proof.
   destruct (join_path (n_prefix n) (Some d)) as [p|e|w] eqn:Hj.
   2:{ intros E; inversion E; subst. split; [exact Hwf|]. split; [apply frame_refl|]. split; [reflexivity|intros; discriminate]. }
   2:{ intros E; inversion E; subst. split; [exact Hwf|]. split; [apply frame_refl|]. split; [reflexivity|intros; discriminate]. }
-  destruct p as [|p0 prest].
-  { intros E; inversion E; subst. split; [exact Hwf|]. split; [apply frame_refl|]. split; [reflexivity|intros; discriminate]. }
-  assert (Hmain : forall t1, t_tree t1 = t_tree t -> frame t t1 ->
-    (let r := delete_cond (t_tree t1) (p0 :: prest) (fun v => Z.ltb (n_ts v) (n_ts n)) in
-     let removed := map snd (snd r) in
-     let t2 := set_tree t1 (fst r) in
-     match removed with
-     | [] => (t2, Ok [])
-     | _ :: _ => let k := Z.of_nat (List.length removed) in
-                 (add_int (add_int t2 md_leaf_count (- k)) md_del_count k, Ok removed)
-     end) = (t', r) ->
-    wf_tree (t_tree t') /\ frame t t' /\
-    (forall s, lookup (t_tree t') s = sel (p0 :: prest) (older_than (n_ts n)) (lookup (t_tree t) s) s) /\
-    exists removed, r = Ok removed /\
-      forall v, In v removed <->
-        exists s, lookup (t_tree t) s = Some v /\ qmatch (p0 :: prest) s = true /\ older_than (n_ts n) v = true).
-  { intros t1 Htr Hf. cbv zeta. rewrite Htr.
-    destruct (tree_delete_spec (t_tree t) (p0 :: prest) (fun v => Z.ltb (n_ts v) (n_ts n)) Hwf)
-      as (Hw & Hl & Hin & _).
-    assert (Hrem : forall v, In v (map snd (snd (delete_cond (t_tree t) (p0 :: prest) (fun v => Z.ltb (n_ts v) (n_ts n))))) <->
-               exists s, lookup (t_tree t) s = Some v /\ qmatch (p0 :: prest) s = true /\ older_than (n_ts n) v = true).
-    { intros v. rewrite in_map_iff. split.
-      - intros ([s v'] & <- & Hi). exists s. now apply Hin.
-      - intros (s & Hs). exists (s, v). split; [reflexivity|]. now apply Hin. }
-    destruct (map snd (snd (delete_cond (t_tree t) (p0 :: prest) (fun v => Z.ltb (n_ts v) (n_ts n))))) as [|x l] eqn:Hm;
-      intros E; inversion E; subst; clear E.
-    - split; [exact Hw|]. split; [destruct Hf as (A & B & C); repeat split; assumption|].
-      split; [exact Hl|]. exists []. split; [reflexivity|exact Hrem].
-    - split; [exact Hw|]. split; [destruct Hf as (A & B & C); repeat split; assumption|].
-      split; [exact Hl|]. exists (x :: l). split; [reflexivity|exact Hrem]. }
-  destruct (String.eqb p0 md_root).
-  - destruct prest as [|k prest'].
-    + intros E; inversion E; subst. split; [exact Hwf|]. split; [apply frame_refl|]. split; [reflexivity|intros; discriminate].
-    + apply Hmain; [reflexivity|repeat split].
-  - apply Hmain; [reflexivity|apply frame_refl].
+  cbv zeta.
+  set (t1 := match p with
+             | p0 :: k :: _ => if String.eqb p0 md_root then set_meta t (md_reset_entry (t_meta t) k) else t
+             | _ => t
+             end).
+  assert (Htr : t_tree t1 = t_tree t /\ frame t t1).
+  { subst t1. destruct p as [|p0 [|k ?]]; try (split; [reflexivity|apply frame_refl]).
+    destruct (String.eqb p0 md_root); split; try reflexivity; try apply frame_refl. repeat split. }
+  destruct Htr as (Htr & Hf). rewrite Htr.
+  destruct (tree_delete_spec (t_tree t) p (fun v => Z.ltb (n_ts v) (n_ts n)) Hwf)
+    as (Hw & Hl & Hin & _).
+  assert (Hrem : forall v, In v (map snd (snd (delete_cond (t_tree t) p (fun v => Z.ltb (n_ts v) (n_ts n))))) <->
+             exists s, lookup (t_tree t) s = Some v /\ qmatch p s = true /\ older_than (n_ts n) v = true).
+  { intros v. rewrite in_map_iff. split.
+    - intros ([s v'] & <- & Hi). exists s. now apply Hin.
+    - intros (s & Hs). exists (s, v). split; [reflexivity|]. now apply Hin. }
+  destruct (map snd (snd (delete_cond (t_tree t) p (fun v => Z.ltb (n_ts v) (n_ts n))))) as [|x l] eqn:Hm;
+    intros E; inversion E; subst t' r; clear E.
+  - split; [exact Hw|]. split; [destruct Hf as (A & B & C); repeat split; assumption|].
+    split; [exact Hl|]. exists []. split; [reflexivity|exact Hrem].
+  - split; [exact Hw|]. split; [destruct Hf as (A & B & C); repeat split; assumption|].
+    split; [exact Hl|]. exists (x :: l). split; [reflexivity|exact Hrem].
 Qed.
 
 (** * Units and events of a notification *)
@@ -1107,11 +1083,15 @@ Qed.
 
 Lemma gnmi_remove_ts t0 m t1 r : gnmi_remove t0 m = (t1, r) -> t_ts t1 = t_ts t0.
 Proof.
-  unfold gnmi_remove. destruct (n_del m) as [|d ds]; [intros E; now inversion E|].
-  destruct (join_path (n_prefix m) (Some d)) as [[|p0 prest]|e|w]; try (intros E; now inversion E).
-  destruct (String.eqb p0 md_root); [destruct prest; [intros E; now inversion E|]|];
-    cbv zeta; match goal with |- match ?x with _ => _ end = _ -> _ => destruct x end;
-    intros E; inversion E; reflexivity.
+  intros E. destruct (n_del m) as [|d ds] eqn:Hd; [unfold gnmi_remove in E; rewrite Hd in E; now inversion E|].
+  unfold gnmi_remove in E. rewrite Hd in E.
+  destruct (join_path (n_prefix m) (Some d)) as [p|e|w]; try (now inversion E).
+  cbv zeta in E.
+  assert (Hts : t_ts (match p with
+             | p0 :: k :: _ => if String.eqb p0 md_root then set_meta t0 (md_reset_entry (t_meta t0) k) else t0
+             | _ => t0 end) = t_ts t0).
+  { destruct p as [|p0 [|k ?]]; try reflexivity. destruct (String.eqb p0 md_root); reflexivity. }
+  match type of E with match ?x with _ => _ end = _ => destruct x end; inversion E; exact Hts.
 Qed.
 
 (** the latest accepted timestamp only grows, and only to the timestamp of a
